@@ -612,6 +612,10 @@ class TaskScenario(ScenarioData):
                 if end_date:
                     # For ALAP, start from the last working slot BEFORE the end date
                     self.currentSlotIdx = self.project.dateToIdx(end_date) - 1
+                    if self.currentSlotIdx > self.project.dateToIdx(self.project["end"]):
+                        # A deadline beyond the scheduling horizon cannot be served
+                        self.isRunAway = True
+                        return False
                     # Find the last working slot
                     # For effort tasks with allocations, check resource availability
                     # (respects resource timezone and working hours)
